@@ -3983,7 +3983,7 @@ def module_not_found(
             reason == ModuleNotFoundReason.NOT_FOUND
             and not errors.prefer_simple_messages()
             and errors.is_error_code_enabled(code)
-            and line not in errors.ignored_lines.get(caller_state.xpath, {})
+            and not errors.is_line_ignored_for_code(line, code, file=caller_state.xpath)
         ):
             top_level_target = target.split(".")[0]
             if not top_level_target.startswith("_"):
